@@ -288,16 +288,28 @@ def run(M, c):
             judge_duration(M, s, y, mo, rest, "large-" + u, None)
         return
     if k == "intervals":
+        prev = None
         for i in range(c["n"]):
             M.progress()
             u1 = gen.modern_instant(r) // US * US + r.choice((0, r.randrange(US)))
             u2 = gen.modern_instant(r) // US * US
             off1 = r.choice((None, 0, r.randrange(-1439, 1440)))
             off2 = r.choice((off1, None, 0, r.randrange(-1439, 1440)))
+            if i % 6 == 5 and prev is not None and prev[2] is not None:
+                # history: the SAME instants as the previous text, written with other offsets (the values compare equal as
+                # datetimes; anything remembered per parsed value must not leak the earlier offset or wall clock)
+                u1, u2 = prev[0], prev[1]
+                off1 = r.choice((0, r.randrange(-1439, 1440), -60, 60, 345))
+                off2 = r.choice((off1, 0, r.randrange(-1439, 1440)))
+                if off1 == prev[2]:
+                    off1 = (off1 + 90) % 1440 - 720
+                hist = True
+            else:
+                hist = False
             form = ("se", "sd", "de")[i % 3]
             dy, dmo, dd, dh, dmi, ds = r.randrange(3), r.randrange(14), r.randrange(40), r.randrange(30), r.randrange(70), r.randrange(70)
             tzopt = r.choice((None, None, "Europe/Paris", "America/Sao_Paulo", "Asia/Kathmandu"))
-            if i % 4 == 1:
+            if i % 4 == 1 and not hist:
                 # a naive endpoint in a DST zone, up to three days around one of its transitions, and a duration whose day
                 # part is only implied by its hours (PT36H): both backends must derive the other endpoint in the same way
                 tzopt = r.choice(("Europe/Paris", "America/Sao_Paulo", "America/New_York", "Australia/Lord_Howe"))
@@ -308,6 +320,9 @@ def run(M, c):
                 dy = dmo = 0
                 dd = r.choice((0, 0, 1))
                 dh = r.randrange(20, 80)
+            if hist:
+                form, tzopt = "se", prev[3]       # both endpoints are parsed again, under the same options
+            prev = (u1, u2, off1, tzopt)
             _interval(M, {"k": "iv", "u1": u1, "u2": u2, "off1": off1, "off2": off2, "form": form, "d": [dy, dmo, dd, dh, dmi, ds], "tz": tzopt})
         return
 
